@@ -97,40 +97,59 @@ def itemPos : FqItem → Nat × Nat
 
 def fuelOf (r : Reader) : Nat := opFuel r.br.src.inp.length r.br.src.script.length
 
-def obsOut {α : Type} (res : Res α) (ok : α → ObsH) : ObsH :=
-  match res with
-  | .ok a => ok a
+/-- what the caller sees of a single-record read -/
+def obsNext (r : Reader) : Res Bool → ObsH
+  | .ok true =>
+    match viewRec r.br.buf r.bp with
+    | some x => .record x
+    | none => .panic
+  | .ok false => .none
   | .err e => .error e
   | .panic => .panic
   | .fuel => .fuel
 
+/-- what the caller sees of a record-set read -/
+def obsSet (rs : RecordSet) : Res Bool → ObsH
+  | .ok true => .batch rs.positions.length
+  | .ok false => .none
+  | .err e => .error e
+  | .panic => .panic
+  | .fuel => .fuel
+
+def obsSeek : Res Unit → ObsH
+  | .ok _ => .done
+  | .err e => .error e
+  | .panic => .panic
+  | .fuel => .fuel
+
+def obsDump (rs : RecordSet) : ObsH :=
+  match viewAll rs.buffer rs.positions with
+  | some xs => .dump xs
+  | none => .panic
+
+def stepNext (s : MSt) : MSt × ObsH :=
+  let x := next (fuelOf s.r) s.r
+  ({ s with r := x.1 }, obsNext x.1 x.2)
+
+def stepSet (s : MSt) (j : Nat) (n : Option Nat) : MSt × ObsH :=
+  let x := readRecordSetExact (fuelOf s.r) s.r (s.getSet j) n
+  (({ s with r := x.1 } : MSt).putSet j x.2.1, obsSet x.2.1 x.2.2)
+
+def stepSeek (s : MSt) (i : Nat) : MSt × ObsH :=
+  match (Spec.fastq s.r.br.src.inp)[i]? with
+  | none => (s, .badOp)
+  | some it =>
+    let x := seek s.r (itemPos it).1 (itemPos it).2
+    ({ s with r := x.1 }, obsSeek x.2)
+
 def stepM (s : MSt) (op : Op) : MSt × ObsH :=
   match op with
-  | .next | .owned =>
-    let (r, res) := next (fuelOf s.r) s.r
-    ({ s with r := r }, obsOut res fun
-      | true => match viewRec r.br.buf r.bp with
-        | some x => .record x
-        | none => .panic
-      | false => .none)
-  | .set j n =>
-    let (r, rs, res) := readRecordSetExact (fuelOf s.r) s.r (s.getSet j) n
-    (({ s with r := r } : MSt).putSet j rs, obsOut res fun
-      | true => .batch rs.positions.length
-      | false => .none)
-  | .dump j =>
-    let rs := s.getSet j
-    (s, match viewAll rs.buffer rs.positions with
-      | some xs => .dump xs
-      | none => .panic)
-  | .pos => let (l, b) := position s.r; (s, .position l b)
-  | .seekItem i =>
-    match (Spec.fastq s.r.br.src.inp)[i]? with
-    | none => (s, .badOp)
-    | some it =>
-      let (l, b) := itemPos it
-      let (r, res) := seek s.r l b
-      ({ s with r := r }, obsOut res fun _ => .done)
+  | .next => stepNext s
+  | .owned => stepNext s
+  | .set j n => stepSet s j n
+  | .dump j => (s, obsDump (s.getSet j))
+  | .pos => (s, .position (position s.r).1 (position s.r).2)
+  | .seekItem i => stepSeek s i
 
 /-- run a history, observations in order -/
 def runM : MSt → List Op → List ObsH
@@ -184,70 +203,94 @@ def leadRecs : List FqItem → List Rec
   | .record x :: rest => recOf x :: leadRecs rest
   | _ => []
 
+/-- single-record read: item `k`, or the end iff there is none -/
+def acceptNext (items : List FqItem) (a : AState) (o : ObsH) : Option AState :=
+  match items[a.k]? with
+  | none => if o = .none then some { a with last := .none } else none
+  | some (.record x) =>
+    if o = .record (recOf x) then some { a with k := a.k + 1, last := .item a.k } else none
+  | some (.err e _ _) =>
+    if o = .error (specErr e) then some { a with k := items.length, last := .none } else none
+
+/-- may a set read with requested count `n` report the error that follows `aheadLen` valid
+records? (an exact-count read only if it lies within the next `n` items) -/
+def reachedErr (n : Option Nat) (aheadLen : Nat) : Bool :=
+  match n with
+  | none => true
+  | some n' => decide (aheadLen < n')
+
+/-- may a set read with requested count `n` deliver `m` records when `aheadLen` valid records
+are ahead (followed by an error item iff `errAhead`)? -/
+def batchOk (n : Option Nat) (m aheadLen : Nat) (errAhead : Bool) : Bool :=
+  match n with
+  | none => decide (1 ≤ m ∧ m ≤ aheadLen)
+  | some n' => decide (1 ≤ m ∧ m = min n' aheadLen ∧ ¬ (errAhead = true ∧ aheadLen < n'))
+
+/-- record-set read into set `j`; `n` = requested exact count -/
+def acceptSet (items : List FqItem) (a : AState) (j : Nat) (n : Option Nat) (o : ObsH) :
+    Option AState :=
+  let ahead := leadRecs (items.drop a.k)       -- valid records before the next error / the end
+  let errAhead := items[a.k + ahead.length]?   -- the error item after them, if any
+  match o with
+  | .none =>
+    if items.length ≤ a.k then
+      some (({ a with last := .none } : AState).putSet j { a.getSet j with altEmpty := true })
+    else none
+  | .error e =>
+    match errAhead with
+    | some (.err e' _ _) =>
+      if e = specErr e' ∧ reachedErr n ahead.length = true then
+        some (({ a with k := items.length, last := .none } : AState).putSet j
+          { a.getSet j with altEmpty := true })
+      else none
+    | _ => none
+  | .batch m =>
+    if batchOk n m ahead.length errAhead.isSome then
+      some (({ a with k := a.k + m, last := .set } : AState).putSet j
+        { recs := ahead.take m, altEmpty := false })
+    else none
+  | _ => none
+
+def acceptDump (a : AState) (j : Nat) (o : ObsH) : Option AState :=
+  match o with
+  | .dump rs =>
+    let e := a.getSet j
+    if rs = e.recs ∨ (e.altEmpty = true ∧ rs = []) then some a else none
+  | _ => none
+
+/-- the position A expects, if it expects one -/
+def wantPos (items : List FqItem) (a : AState) : Option (Nat × Nat) :=
+  match a.last with
+  | .none => none
+  | .item i => items[i]?.map itemPos
+  | .set => match items[a.k]? with
+    | some (.record x) => some (x.line, x.byte)
+    | _ => none
+  | .seek i => items[i]?.map itemPos
+
+def acceptPos (items : List FqItem) (a : AState) (o : ObsH) : Option AState :=
+  match o with
+  | .position l b =>
+    match wantPos items a with
+    | none => some a
+    | some p => if p = (l, b) then some a else none
+  | _ => none
+
+def acceptSeek (items : List FqItem) (a : AState) (i : Nat) (o : ObsH) : Option AState :=
+  match o with
+  | .done => if i < items.length then some { a with k := i, last := .seek i } else none
+  | .badOp => if items.length ≤ i then some a else none
+  | _ => none
+
 /-- does the observation `o` fit the history so far, and what is the state afterwards? -/
 def acceptA (items : List FqItem) (a : AState) (op : Op) (o : ObsH) : Option AState :=
   match op with
-  | .next | .owned =>
-    match items[a.k]? with
-    | none => if o = .none then some { a with last := .none } else none
-    | some (.record x) =>
-      if o = .record (recOf x) then some { a with k := a.k + 1, last := .item a.k } else none
-    | some (.err e _ _) =>
-      if o = .error (specErr e) then some { a with k := items.length, last := .none } else none
-  | .set j n =>
-    let ahead := leadRecs (items.drop a.k)       -- valid records before the next error / the end
-    let errAhead := items[a.k + ahead.length]?   -- the error item after them, if any
-    match o with
-    | .none =>
-      if items.length ≤ a.k then
-        some (({ a with last := .none } : AState).putSet j { a.getSet j with altEmpty := true })
-      else none
-    | .error e =>
-      match errAhead with
-      | some (.err e' _ _) =>
-        let reached : Bool := match n with
-          | none => true
-          | some n' => decide (ahead.length < n')
-        if e = specErr e' ∧ reached = true then
-          some (({ a with k := items.length, last := .none } : AState).putSet j
-            { a.getSet j with altEmpty := true })
-        else none
-      | _ => none
-    | .batch m =>
-      let ok : Bool := match n with
-        | none => decide (1 ≤ m ∧ m ≤ ahead.length)
-        | some n' => decide (1 ≤ m ∧ m = min n' ahead.length ∧
-            ¬ (errAhead.isSome ∧ ahead.length < n'))
-      if ok then
-        some (({ a with k := a.k + m, last := .set } : AState).putSet j
-          { recs := ahead.take m, altEmpty := false })
-      else none
-    | _ => none
-  | .dump j =>
-    match o with
-    | .dump rs =>
-      let e := a.getSet j
-      if rs = e.recs ∨ (e.altEmpty = true ∧ rs = []) then some a else none
-    | _ => none
-  | .pos =>
-    match o with
-    | .position l b =>
-      let want : Option (Nat × Nat) := match a.last with
-        | .none => none
-        | .item i => items[i]?.map itemPos
-        | .set => match items[a.k]? with
-          | some (.record x) => some (x.line, x.byte)
-          | _ => none
-        | .seek i => items[i]?.map itemPos
-      match want with
-      | none => some a
-      | some p => if p = (l, b) then some a else none
-    | _ => none
-  | .seekItem i =>
-    match o with
-    | .done => if i < items.length then some { a with k := i, last := .seek i } else none
-    | .badOp => if items.length ≤ i then some a else none
-    | _ => none
+  | .next => acceptNext items a o
+  | .owned => acceptNext items a o
+  | .set j n => acceptSet items a j n o
+  | .dump j => acceptDump a j o
+  | .pos => acceptPos items a o
+  | .seekItem i => acceptSeek items a i o
 
 /-- A accepts the observations of a history, in order -/
 def acceptsA (items : List FqItem) : AState → List Op → List ObsH → Bool
